@@ -57,6 +57,9 @@ type Converter struct {
 	nameSet bool
 	// pendingExtends are the extend lines read so far, see parseConverter.
 	pendingExtends []pendingLine
+	// variables are the names of the variables of a goverter:variables
+	// block: the functions to generate, never custom functions for it.
+	variables map[string]struct{}
 }
 
 func (c *Converter) typeForMethod() types.Type {
@@ -196,6 +199,10 @@ func initConverter(loader *pkgload.PackageLoader, rawConverter *RawConverter) (*
 	c.OutputPackageName = rawConverter.PackageName
 	c.OutputPackagePath = rawConverter.PackagePath
 	c.outputPackagePreset = true
+	c.variables = map[string]struct{}{}
+	for name := range rawConverter.Methods {
+		c.variables[name] = struct{}{}
+	}
 	return c, nil
 }
 
@@ -296,7 +303,20 @@ func parseConverterLine(ctx *context, c *Converter, value string) (err error) {
 			if err != nil {
 				break
 			}
-			c.Extend = append(c.Extend, defs...)
+			added := 0
+			for _, def := range defs {
+				// a pattern also matches the variables of the block
+				// itself: they would be implemented by calling themselves.
+				if _, own := c.variables[def.Name]; own && def.Package == c.Package {
+					continue
+				}
+				c.Extend = append(c.Extend, def)
+				added++
+			}
+			if added == 0 && len(defs) > 0 {
+				err = fmt.Errorf("%q only matches variables of the goverter:variables block itself", name)
+				break
+			}
 		}
 	default:
 		_, err = parseCommon(&c.Common, cmd, rest)
